@@ -42,6 +42,19 @@ uint64_t fam_iterate(size_t m, const uint8_t *vec, int thorough, fam_cb cb, void
     /* backgrounds themselves */
     for (b = 0; b < nbg; ++b) emit(&e, bg[b], m);
 
+    /* UNIT: one aligned 4-, 8- or 16-byte unit (a row, a tweakey word, a block) all zeros or all ones on each
+     * background, and the all-ones vector itself in both tiers: a whole word with a special value is what an
+     * in-band marker or a "nothing to do" test would key on */
+    if (!thorough) { memset(buf, 0xFF, m); emit(&e, buf, m); }
+    for (b = 0; b < nbg; ++b)
+        for (i = 4; i <= 16; i *= 2)
+            for (p = 0; p + i <= m; p += i)
+                for (v = 0; v < 2; ++v) {
+                    memcpy(buf, bg[b], m);
+                    memset(buf + p, v ? 0xFF : 0x00, i);
+                    emit(&e, buf, m);
+                }
+
     /* BYTE */
     for (b = 0; b < nbg; ++b)
         for (p = 0; p < m; ++p) {
